@@ -737,6 +737,11 @@ class Interp:
 		m = re.match(r"^(\w+)\((.*)\)$", s)
 		if m and m.group(1) in self.BINOPS:
 			a, b = [self.operand(st, fi, x) for x in split_top(m.group(2))]
+			hook = self.models.get("@binop")
+			if hook is not None and not (isinstance(a, (int, bool)) and isinstance(b, (int, bool))):
+				r = hook(self, st, m.group(1), a, b)
+				if r is not None:
+					return r
 			return self.BINOPS[m.group(1)](a, b)
 		if m and m.group(1) == "PtrMetadata":
 			a = self.operand(st, fi, m.group(2))
@@ -952,6 +957,15 @@ class Interp:
 		# symbolic scrutinee
 		out = []
 		fi = len(st.frames) - 1
+		hook = self.models.get("@switch")
+		if hook is not None and not isinstance(v, (Cond, CharVar)):
+			# solver term (integer / boolean): the model forks on the feasible targets under the state's
+			# path condition: [(state, basic block)]
+			for s2, bb in hook(self, st, v, targets, other):
+				self.goto(s2.frames[fi], bb)
+				out.append(s2)
+			self.stats["forks"] += max(0, len(out) - 1)
+			return out
 		is_bool = isinstance(v, Cond)
 		if not is_bool and not isinstance(v, CharVar):
 			raise MirError("switchInt on %r" % (v,))
